@@ -228,6 +228,130 @@ Section Rules.
         apply (runs_reptail_chars n x P Hx k stop (S pos) Hk Hstop).
       + lia.
   Qed.
+
+  (* ---------- deterministic rules: the outcome of a compound expression as a function of the
+     outcomes of its parts, whatever they are (no case split, hence no re-derivation) ---------- *)
+  Definition seq_result (r1 r2 r3 : res rname) : res rname :=
+    match r1 with
+    | Ok _ _ t1 =>
+        match r2 with
+        | Ok _ _ _ => match r3 with Ok s3 p3 t3 => Ok s3 p3 (t1 ++ t3) | r => r end
+        | r => r
+        end
+    | r => r
+    end.
+
+  Lemma runs_seq n1 n2 n3 x y a s pos r1 r2 r3 :
+    Runs n1 x a s pos r1 ->
+    match r1 with Ok s1 p1 _ => Runs n2 ESkip a s1 p1 r2 | _ => n2 = 0 /\ r2 = Fail end ->
+    match r1, r2 with Ok _ _ _, Ok s2 p2 _ => Runs n3 y a s2 p2 r3 | _, _ => n3 = 0 /\ r3 = Fail end ->
+    Runs (S (Nat.max n1 (Nat.max n2 n3))) (ESeq x y) a s pos (seq_result r1 r2 r3).
+  Proof.
+    intros H1 H2 H3 f Hf. destruct f as [|f]; [lia|]. cbn [run]. rewrite H1 by lia.
+    destruct r1 as [| |s1 p1 t1]; try reflexivity. rewrite H2 by lia.
+    destruct r2 as [| |s2 p2 t2]; try reflexivity. rewrite H3 by lia. destruct r3; reflexivity.
+  Qed.
+
+  Lemma runs_alt n1 n2 x y a s pos r1 r2 :
+    Runs n1 x a s pos r1 ->
+    match r1 with Fail => Runs n2 y a s pos r2 | _ => n2 = 0 /\ r2 = Fail end ->
+    Runs (S (Nat.max n1 n2)) (EAlt x y) a s pos (match r1 with Fail => r2 | r => r end).
+  Proof.
+    intros H1 H2 f Hf. destruct f as [|f]; [lia|]. cbn [run]. rewrite H1 by lia.
+    destruct r1; try reflexivity. apply H2. lia.
+  Qed.
+
+  Lemma runs_opt n x a s pos r1 :
+    Runs n x a s pos r1 -> Runs (S n) (EOpt x) a s pos (match r1 with Fail => Ok s pos [] | r => r end).
+  Proof. intros H f Hf. destruct f as [|f]; [lia|]. cbn [run]. rewrite H by lia. destruct r1; reflexivity. Qed.
+
+  Lemma runs_not n x a s pos r1 :
+    Runs n x a s pos r1 ->
+    Runs (S n) (ENot x) a s pos (match r1 with Fail => Ok s pos [] | OutOfFuel => OutOfFuel | Ok _ _ _ => Fail end).
+  Proof. intros H f Hf. destruct f as [|f]; [lia|]. cbn [run]. rewrite H by lia. destruct r1; reflexivity. Qed.
+
+  Lemma runs_and n x a s pos r1 :
+    Runs n x a s pos r1 ->
+    Runs (S n) (EAnd x) a s pos (match r1 with Ok _ _ _ => Ok s pos [] | r => r end).
+  Proof. intros H f Hf. destruct f as [|f]; [lia|]. cbn [run]. rewrite H by lia. destruct r1; reflexivity. Qed.
+
+  Definition rep_result (s : str) (pos : nat) (r1 r2 : res rname) : res rname :=
+    match r1 with
+    | Fail => Ok s pos []
+    | OutOfFuel => OutOfFuel
+    | Ok _ _ t1 => match r2 with Ok s2 p2 t2 => Ok s2 p2 (t1 ++ t2) | r => r end
+    end.
+
+  Lemma runs_rep n1 n2 x a s pos r1 r2 :
+    Runs n1 x a s pos r1 ->
+    match r1 with Ok s1 p1 _ => Runs n2 (ERepTail x) a s1 p1 r2 | _ => n2 = 0 /\ r2 = Fail end ->
+    Runs (S (Nat.max n1 n2)) (ERep x) a s pos (rep_result s pos r1 r2).
+  Proof.
+    intros H1 H2 f Hf. destruct f as [|f]; [lia|]. cbn [run]. rewrite H1 by lia.
+    destruct r1 as [| |s1 p1 t1]; try reflexivity. cbn [rep_result]. rewrite H2 by lia. destruct r2; reflexivity.
+  Qed.
+
+  Definition reptail_result (s : str) (pos : nat) (r0 r1 r2 : res rname) : res rname :=
+    match r0 with
+    | Ok _ _ _ =>
+        match r1 with
+        | Fail => Ok s pos []
+        | OutOfFuel => OutOfFuel
+        | Ok _ p2 t2 =>
+            if Nat.eqb p2 pos then Ok s pos []
+            else match r2 with Ok s3 p3 t3 => Ok s3 p3 (t2 ++ t3) | r => r end
+        end
+    | r => r
+    end.
+
+  Lemma runs_reptail n0 n1 n2 x a s pos r0 r1 r2 :
+    Runs n0 ESkip a s pos r0 ->
+    match r0 with Ok s1 p1 _ => Runs n1 x a s1 p1 r1 | _ => n1 = 0 /\ r1 = Fail end ->
+    match r0, r1 with
+    | Ok _ _ _, Ok s2 p2 _ => if Nat.eqb p2 pos then n2 = 0 /\ r2 = Fail else Runs n2 (ERepTail x) a s2 p2 r2
+    | _, _ => n2 = 0 /\ r2 = Fail
+    end ->
+    Runs (S (Nat.max n0 (Nat.max n1 n2))) (ERepTail x) a s pos (reptail_result s pos r0 r1 r2).
+  Proof.
+    intros H0 H1 H2 f Hf. destruct f as [|f]; [lia|]. cbn [run]. rewrite H0 by lia.
+    destruct r0 as [| |s1 p1 t1]; try reflexivity. rewrite H1 by lia.
+    destruct r1 as [| |s2 p2 t2]; try reflexivity. cbn [reptail_result].
+    destruct (Nat.eqb p2 pos); [reflexivity|]. rewrite H2 by lia. destruct r2; reflexivity.
+  Qed.
+
+  Definition call_atomicity (k : rkind) (a : atomicity) : atomicity :=
+    match k with
+    | KSilent | KNormal => a
+    | KAtomic => AAtomic
+    | KCompound => ACompound
+    | KNonAtomic => ANonAtomic
+    end.
+  Definition call_result (k : rkind) (r : rname) (a : atomicity) (pos : nat) (r1 : res rname) : res rname :=
+    match k with
+    | KSilent => r1
+    | KAtomic => match r1 with Ok rest p _ => Ok rest p (if emits a then [Pair r pos p []] else []) | x => x end
+    | _ => match r1 with Ok rest p toks => Ok rest p (if emits a then [Pair r pos p toks] else []) | x => x end
+    end.
+
+  Lemma runs_call n r k body a s pos r1 :
+    g_rule g r = (k, body) ->
+    Runs n body (call_atomicity k a) s pos r1 ->
+    Runs (S n) (ECall r) a s pos (call_result k r a pos r1).
+  Proof.
+    intros Hr H f Hf. destruct f as [|f]; [lia|]. cbn [run]. rewrite Hr.
+    destruct k; cbn [call_atomicity call_result] in *; rewrite H by lia; destruct r1; reflexivity.
+  Qed.
+
+  Lemma runs_skip n s pos r1 a :
+    match a with ANonAtomic => Runs n (ERep (ECall (g_ws g))) AAtomic s pos r1 | _ => n = 0 /\ r1 = Fail end ->
+    Runs (S n) ESkip a s pos
+         (match a with ANonAtomic => match r1 with Ok rest p _ => Ok rest p [] | r => r end | _ => Ok s pos [] end).
+  Proof.
+    intros H f Hf. destruct f as [|f]; [lia|]. cbn [run]. destruct a; try reflexivity.
+    rewrite H by lia. destruct r1; reflexivity.
+  Qed.
 End Rules.
 
 Arguments Runs {rname}.
+Arguments seq_result {rname}. Arguments rep_result {rname}. Arguments reptail_result {rname}.
+Arguments call_result {rname}. Arguments call_atomicity : simpl nomatch.
